@@ -31,7 +31,6 @@ import (
 //	         `--set ego.runtime.sandbox.path=<root> run --sandbox true <file>`
 //	handler  admin.RunCodeHandler (POST /admin/run) for a session that is not
 //	         an administrator, with ego.runtime.sandbox.path set as the server does
-//	debug    the same handler in debug mode, followed by a `continue` command
 //
 // Jobs arrive on fd 3, answers leave on fd 4; stdin is /dev/null. Before each
 // job the working directory and the environment are put back, so that a
@@ -113,12 +112,12 @@ func workerMain() {
 				res.Err = rerr.Error()
 			}
 
-		case "handler", "debug":
+		case "handler":
 			session++
 
 			settings.SetDefault(defs.SandboxPathSetting, j.Root)
 
-			body := serveRun(session, j.Prog, j.Mode == "debug", !j.Sandbox)
+			body := serveRun(session, j.Prog, !j.Sandbox)
 			_, _ = f.Write(body)
 		}
 
@@ -138,7 +137,7 @@ const sessionUUID = "6f1c2a44-9b1e-4c55-8d20-0c26c26c26c2"
 
 // serveRun posts the program to the real handler of POST /admin/run. The
 // dashboard runs top-level statements, so main is called at the end.
-func serveRun(id int, prog string, debugMode bool, admin_ bool) []byte {
+func serveRun(id int, prog string, admin_ bool) []byte {
 	post := func(req map[string]any) []byte {
 		b, _ := json.Marshal(req)
 		r := httptest.NewRequest(http.MethodPost, "/admin/run", bytes.NewReader(b))
@@ -152,23 +151,7 @@ func serveRun(id int, prog string, debugMode bool, admin_ bool) []byte {
 
 	code := prog + "\nmain()\n"
 
-	if !debugMode {
-		return post(map[string]any{"code": code, "session": sessionUUID})
-	}
-
-	out := post(map[string]any{"code": code, "session": sessionUUID, "debug": true})
-
-	// run to the end; the debugger answers "done" when the program finished
-	for i := 0; i < 4; i++ {
-		more := post(map[string]any{"session": sessionUUID, "debug": true, "debugInput": "continue"})
-		out = append(out, more...)
-
-		if !bytes.Contains(more, []byte(`"debugWaiting":true`)) {
-			break
-		}
-	}
-
-	return out
+	return post(map[string]any{"code": code, "session": sessionUUID})
 }
 
 // ---------------------------------------------------------------- pool side
